@@ -59,8 +59,8 @@ Definition decode_check (bs : list Z) (o : dobs) : bool :=
              && forallb (pretend_ok f a) (a_pretend a)               (* MakePretendPacket(seq, n) *)
          | _, _ => false
          end
-      (* Timestamp() and IsExternalTrigger() have been called: a panic there makes the observation ODPanic-free
-         impossible to build, see a_ts / a_ext (total values) *)
+      (* Timestamp() and IsExternalTrigger() were called as well: their values are in a_ts / a_ext; had one of
+         them panicked the harness would have reported the whole observation as ODPanic *)
   end.
 
 Definition pdata_eqb (a b : pdata) : bool :=
